@@ -27,6 +27,8 @@ structure Inv {α} (c : Cfg α) (items0 : List (Item α)) (s : St α) : Prop whe
   gotD : s.gotD = true → s.dist = some .ok ∨ (s.dist = some .err ∧ s.errs = true)
   gotW : ∀ i, s.gotW i = true → s.wres i = some .ok ∨ (s.wres i = some .err ∧ s.errs = true)
   cp : s.checkpoint = true → s.term = some .done ∧ ∀ a ∈ s.consumed, a ∈ s.applied
+  /-- sendRdb returns nil only through setCheckpoint -/
+  retOk : s.ret = some .ok → s.checkpoint = true
 
 theorem map_entry_ne {α} (l es : List α) (t : Term) (junk : List (Item α)) :
     l.map Item.entry ≠ es.map Item.entry ++ Item.term t :: junk := by
@@ -41,7 +43,7 @@ theorem allGot_iff {α} (n : Nat) (s : St α) : allGot n s = true ↔ ∀ i, i <
   simp [allGot, List.all_eq_true]
 
 theorem init_inv {α} (c : Cfg α) (items : List (Item α)) : Inv c items (init items) := by
-  refine ⟨by simp [init, termList], ?_, ?_, ?_, ?_, ?_, ?_, ?_, ?_, ?_, ?_, ?_⟩ <;> simp [init]
+  refine ⟨by simp [init, termList], ?_, ?_, ?_, ?_, ?_, ?_, ?_, ?_, ?_, ?_, ?_, ?_⟩ <;> simp [init]
 
 section
 variable {α : Type} (c : Cfg α) (items0 : List (Item α)) (s : St α) (inv : Inv c items0 s)
@@ -122,7 +124,7 @@ theorem dist_inv (hn : 0 < c.n) : Inv c items0 (stepDist c s) := by
       split
       · refine { inv with frame := ?_, member := ?_, distOk := ?_, wok := ?_, cp := ?_ }
         · have := inv.frame; rw [hp, ht0] at this
-          simpa [termList, List.append_assoc] using this
+          simpa [termList, ht0, List.append_assoc] using this
         · intro x hx
           rcases List.mem_append.mp hx with hx | hx
           · rcases inv.member x hx with h | h | ⟨j, hj, hm⟩
@@ -130,10 +132,10 @@ theorem dist_inv (hn : 0 < c.n) : Inv c items0 (stepDist c s) := by
             · exact Or.inr (Or.inl h)
             · refine Or.inr (Or.inr ⟨j, hj, ?_⟩)
               by_cases hji : j = c.route a % c.n
-              · subst hji; rw [upd_same]; exact List.mem_append_left _ hm
-              · rw [upd_other _ _ _ _ hji]; exact hm
+              · subst hji; simp only [upd_same]; exact List.mem_append_left _ hm
+              · simp only [upd_other _ _ _ _ hji]; exact hm
           · simp at hx; subst hx
-            exact Or.inr (Or.inr ⟨c.route x % c.n, Nat.mod_lt _ hn, by rw [upd_same]; simp⟩)
+            exact Or.inr (Or.inr ⟨c.route x % c.n, Nat.mod_lt _ hn, by simp only [upd_same]; simp⟩)
         · intro h; rw [hd0] at h; cases h
         · intro i hi hw
           rcases inv.wok i hi hw with ⟨_, h1⟩ | h2
@@ -178,11 +180,11 @@ theorem work_inv (i : Nat) : Inv c items0 (stepWork c s i) := by
           · subst hji; rw [hp] at hm
             rcases List.mem_cons.mp hm with rfl | hm
             · exact Or.inl (by simp)
-            · exact Or.inr (Or.inr ⟨j, hj, by rw [upd_same]; exact hm⟩)
-          · exact Or.inr (Or.inr ⟨j, hj, by rw [upd_other _ _ _ _ hji]; exact hm⟩)
+            · exact Or.inr (Or.inr ⟨j, hj, by simp only [upd_same]; exact hm⟩)
+          · exact Or.inr (Or.inr ⟨j, hj, by simp only [upd_other _ _ _ _ hji]; exact hm⟩)
       · intro j hj hw
         have hji : j ≠ i := by intro h; subst h; rw [hw0] at hw; cases hw
-        rw [upd_other _ _ _ _ hji]
+        simp only [upd_other _ _ _ _ hji]
         exact inv.wok j hj hw
       · intro h
         exact ⟨(inv.cp h).1, fun x hx => List.mem_append_left _ ((inv.cp h).2 x hx)⟩
@@ -197,21 +199,21 @@ theorem workFail_inv (i : Nat) : Inv c items0 (stepWorkFail c s i) := by
     have hw0 : s.wres i = none := by
       simp only [Bool.or_eq_true, not_or] at hg; simpa using hg.2
     have hwok : ∀ j, j < c.n → upd s.wres i (some Res.err) j = some .ok → j ≠ i := by
-      intro j _ hw h; subst h; rw [upd_same] at hw; cases hw
+      intro j _ hw h; subst h; simp only [upd_same] at hw; cases hw
     have hgw : ∀ j, s.gotW j = true →
         upd s.wres i (some Res.err) j = some .ok ∨ (upd s.wres i (some Res.err) j = some .err ∧ s.errs = true) := by
       intro j hgj
       have hji : j ≠ i := by
         intro h; subst h
         rcases inv.gotW j hgj with h | ⟨h, _⟩ <;> (rw [hw0] at h; cases h)
-      rw [upd_other _ _ _ _ hji]; exact inv.gotW j hgj
+      simp only [upd_other _ _ _ _ hji]; exact inv.gotW j hgj
     split
     · next hp =>
       refine { inv with dropped := ?_, wok := ?_, gotW := hgw }
       · intro _; exact ⟨i, hin, upd_same _ _ _⟩
       · intro j hj hw
         have hji := hwok j hj hw
-        rw [upd_other _ _ _ _ hji] at hw
+        simp only [upd_other _ _ _ _ hji] at hw
         exact inv.wok j hj hw
     · next a q hp =>
       refine { inv with member := ?_, dropped := ?_, wok := ?_, gotW := hgw }
@@ -223,12 +225,12 @@ theorem workFail_inv (i : Nat) : Inv c items0 (stepWorkFail c s i) := by
           · subst hji; rw [hp] at hm
             rcases List.mem_cons.mp hm with rfl | hm
             · exact Or.inr (Or.inl (by simp))
-            · exact Or.inr (Or.inr ⟨j, hj, by rw [upd_same]; exact hm⟩)
-          · exact Or.inr (Or.inr ⟨j, hj, by rw [upd_other _ _ _ _ hji]; exact hm⟩)
+            · exact Or.inr (Or.inr ⟨j, hj, by simp only [upd_same]; exact hm⟩)
+          · exact Or.inr (Or.inr ⟨j, hj, by simp only [upd_other _ _ _ _ hji]; exact hm⟩)
       · intro _; exact ⟨i, hin, upd_same _ _ _⟩
       · intro j hj hw
         have hji := hwok j hj hw
-        rw [upd_other _ _ _ _ hji] at hw ⊢
+        simp only [upd_other _ _ _ _ hji] at hw ⊢
         exact inv.wok j hj hw
 
 theorem workCancel_inv (i : Nat) : Inv c items0 (stepWorkCancel c s i) := by
@@ -242,16 +244,16 @@ theorem workCancel_inv (i : Nat) : Inv c items0 (stepWorkCancel c s i) := by
     · intro h
       obtain ⟨j, hj, hw⟩ := inv.dropped h
       have hji : j ≠ i := by intro h; subst h; rw [hw0] at hw; cases hw
-      exact ⟨j, hj, by rw [upd_other _ _ _ _ hji]; exact hw⟩
+      exact ⟨j, hj, by simp only [upd_other _ _ _ _ hji]; exact hw⟩
     · intro j hj hw
       by_cases hji : j = i
       · exact Or.inr hctx
-      · rw [upd_other _ _ _ _ hji] at hw; exact inv.wok j hj hw
+      · simp only [upd_other _ _ _ _ hji] at hw; exact inv.wok j hj hw
     · intro j hgj
       have hji : j ≠ i := by
         intro h; subst h
         rcases inv.gotW j hgj with h | ⟨h, _⟩ <;> (rw [hw0] at h; cases h)
-      rw [upd_other _ _ _ _ hji]; exact inv.gotW j hgj
+      simp only [upd_other _ _ _ _ hji]; exact inv.gotW j hgj
   · exact inv
 
 theorem workClosed_inv (i : Nat) : Inv c items0 (stepWorkClosed c s i) := by
@@ -265,16 +267,16 @@ theorem workClosed_inv (i : Nat) : Inv c items0 (stepWorkClosed c s i) := by
     · intro h
       obtain ⟨j, hj, hw⟩ := inv.dropped h
       have hji : j ≠ i := by intro h; subst h; rw [hw0] at hw; cases hw
-      exact ⟨j, hj, by rw [upd_other _ _ _ _ hji]; exact hw⟩
+      exact ⟨j, hj, by simp only [upd_other _ _ _ _ hji]; exact hw⟩
     · intro j hj hw
       by_cases hji : j = i
       · subst hji; exact Or.inl ⟨hemp, hcl⟩
-      · rw [upd_other _ _ _ _ hji] at hw; exact inv.wok j hj hw
+      · simp only [upd_other _ _ _ _ hji] at hw; exact inv.wok j hj hw
     · intro j hgj
       have hji : j ≠ i := by
         intro h; subst h
         rcases inv.gotW j hgj with h | ⟨h, _⟩ <;> (rw [hw0] at h; cases h)
-      rw [upd_other _ _ _ _ hji]; exact inv.gotW j hgj
+      simp only [upd_other _ _ _ _ hji]; exact inv.gotW j hgj
   · exact inv
 
 theorem cancel_inv : Inv c items0 ({ s with cancelled := true }) := by
@@ -317,7 +319,7 @@ theorem collectW_inv (i : Nat) : Inv c items0 (stepCollectW c s i) := by
       intro j hgj
       by_cases hji : j = i
       · subst hji; exact Or.inl hw
-      · rw [upd_other _ _ _ _ hji] at hgj; exact inv.gotW j hgj
+      · simp only [upd_other _ _ _ _ hji] at hgj; exact inv.gotW j hgj
     · next hw =>
       refine { inv with wok := ?_, child := ?_, gotD := ?_, gotW := ?_ }
       · intro j hj hwj
@@ -333,24 +335,24 @@ theorem collectW_inv (i : Nat) : Inv c items0 (stepCollectW c s i) := by
       · intro j hgj
         by_cases hji : j = i
         · subst hji; exact Or.inr ⟨hw, rfl⟩
-        · rw [upd_other _ _ _ _ hji] at hgj
+        · simp only [upd_other _ _ _ _ hji] at hgj
           rcases inv.gotW j hgj with h | ⟨h, _⟩
           · exact Or.inl h
           · exact Or.inr ⟨h, rfl⟩
 
 theorem finish_inv (cpOk : Bool)
-    (h0 : ∃ es t junk, items0 = es.map Item.entry ++ Item.term t :: junk) :
+    (h0 : ∃ (es : List α) (t : Term) (junk : List (Item α)), items0 = es.map Item.entry ++ Item.term t :: junk) :
     Inv c items0 (stepFinish c s cpOk) := by
   unfold stepFinish
   split
   · exact inv
   · next hg =>
-    simp only [Bool.or_eq_true, not_or, Bool.not_eq_true', Bool.not_eq_eq_eq_not, Bool.not_true] at hg
+    simp only [Bool.or_eq_true, not_or, Bool.not_eq_eq_eq_not, Bool.not_true] at hg
     split
-    · exact { inv with }
+    · exact { inv with retOk := fun h => by cases h }
     · next herr =>
       split
-      · exact { inv with }
+      · exact { inv with retOk := fun h => by cases h }
       · next hcan =>
         split
         · -- the checkpoint is written: everything the parser produced was applied
@@ -398,7 +400,7 @@ theorem finish_inv (cpOk : Bool)
               rw [ht, hp, htd, hi] at this
               simp only [termList, List.append_nil] at this
               exact absurd this (map_entry_ne _ _ _ _)
-          refine { inv with cp := ?_ }
+          refine { inv with cp := ?_, retOk := fun _ => rfl }
           intro _
           refine ⟨hterm, ?_⟩
           intro a ha
@@ -406,12 +408,12 @@ theorem finish_inv (cpOk : Bool)
           · exact h
           · rw [hdrop] at h; cases h
           · rw [hpipes i hi] at hm; cases hm
-        · exact { inv with }
+        · exact { inv with retOk := fun h => by cases h }
 
 end
 
 theorem step_inv {α} (c : Cfg α) (items0 : List (Item α)) (hn : 0 < c.n)
-    (h0 : ∃ es t junk, items0 = es.map Item.entry ++ Item.term t :: junk)
+    (h0 : ∃ (es : List α) (t : Term) (junk : List (Item α)), items0 = es.map Item.entry ++ Item.term t :: junk)
     (s : St α) (e : Ev) (inv : Inv c items0 s) : Inv c items0 (step c s e) := by
   cases e with
   | parse => exact parse_inv c items0 s inv
@@ -427,7 +429,7 @@ theorem step_inv {α} (c : Cfg α) (items0 : List (Item α)) (hn : 0 < c.n)
   | finish cpOk => exact finish_inv c items0 s inv cpOk h0
 
 theorem run_inv {α} (c : Cfg α) (items0 : List (Item α)) (hn : 0 < c.n)
-    (h0 : ∃ es t junk, items0 = es.map Item.entry ++ Item.term t :: junk)
+    (h0 : ∃ (es : List α) (t : Term) (junk : List (Item α)), items0 = es.map Item.entry ++ Item.term t :: junk)
     (sched : List Ev) : ∀ s, Inv c items0 s → Inv c items0 (run c s sched) := by
   induction sched with
   | nil => intro s h; exact h
@@ -435,5 +437,16 @@ theorem run_inv {α} (c : Cfg α) (items0 : List (Item α)) (hn : 0 < c.n)
     intro s h
     simp only [run, List.foldl_cons]
     exact ih _ (step_inv c items0 hn h0 s e h)
+
+theorem entries_prefix_unique {α} : ∀ (l1 l2 : List α) (t1 t2 : Term) (r1 r2 : List (Item α)),
+    l1.map Item.entry ++ Item.term t1 :: r1 = l2.map Item.entry ++ Item.term t2 :: r2 → l1 = l2 ∧ t1 = t2
+  | [], [], t1, t2, r1, r2, h => by simp at h; exact ⟨rfl, h.1⟩
+  | [], b :: l2, t1, t2, r1, r2, h => by simp at h
+  | a :: l1, [], t1, t2, r1, r2, h => by simp at h
+  | a :: l1, b :: l2, t1, t2, r1, r2, h => by
+    simp only [List.map_cons, List.cons_append, List.cons.injEq, Item.entry.injEq] at h
+    obtain ⟨hab, h⟩ := h
+    obtain ⟨hl, ht⟩ := entries_prefix_unique l1 l2 t1 t2 r1 r2 h
+    exact ⟨by rw [hab, hl], ht⟩
 
 end GunYu.RdbFanout
